@@ -12,7 +12,7 @@ transcription gives a mutually inverse pair of block functions — trusted, see 
 
 The unchanged tree violates the full statement in three ways; each has its FULL statement in a
 comment, a `_partial` theorem and a kernel-checked witness:
-  F1  `use_xref_streams`: the trailer dictionary has neither /Encrypt nor /ID
+  F1  (repaired) `use_xref_streams`: the trailer dictionary had neither /Encrypt nor /ID
   F2  strings under the dictionary keys ID, O, U, P, Perms, Encrypt, Length, Filter, DecodeParms
       are written in clear but decrypted by the reader
   F3  (repaired) a stream without /Filter used to get `/Filter /Crypt`, which the reader cannot decode
@@ -360,25 +360,24 @@ theorem C05_user_password_unlocks_r5 (hA : AesOK) (upw opw vsU ksU vsO ksO fileK
   have htv : (sha256 (upw ++ vsU)).take 32 = sha256 (upw ++ vsU) := List.take_of_length_le (by rw [hs]; omega)
   simp [hc1, hc2, htk, hc3, hk, htv]
 
-/-! ## The trailer
+/-! ## The trailer -/
 
-FULL: ∀ cfg, "Encrypt" ∈ trailerKeys cfg true ∧ "ID" ∈ trailerKeys cfg true
--/
-
-/-- With a classic cross-reference table the trailer announces the encryption and carries the
-file identifier the key was derived from. -/
-theorem C05_trailer_announces_encryption_partial (cfg : Cfg) (h : cfg.xref = false) :
+/-- Whatever the writer configuration (classic table, cross-reference stream, object streams,
+compression), the dictionary that plays the role of the trailer announces the encryption and
+carries the file identifier the key was derived from. -/
+theorem C05_trailer_announces_encryption (cfg : Cfg) :
     "Encrypt" ∈ trailerKeys cfg true ∧ "ID" ∈ trailerKeys cfg true ∧
       detectEncryption (trailerKeys cfg true) = true := by
-  simp [trailerKeys, h, detectEncryption]
+  cases cfg with | mk x o c => cases x <;> simp [trailerKeys, detectEncryption]
 
-example : (⟨false, true, true⟩ : Cfg).xref = false := rfl
+example : detectEncryption (trailerKeys ⟨true, true, true⟩ true) = true := by decide
 
-/-- F1 witness: with `use_xref_streams` neither key is written, whatever the other settings. -/
-theorem C05_witness_xref_stream_trailer (o c : Bool) :
-    ¬ ("Encrypt" ∈ trailerKeys ⟨true, o, c⟩ true) ∧ ¬ ("ID" ∈ trailerKeys ⟨true, o, c⟩ true) ∧
-      detectEncryption (trailerKeys ⟨true, o, c⟩ true) = false := by
-  simp [trailerKeys, detectEncryption]
+/-- Regression statement (the unrepaired `write_xref_stream`, `trailerKeysOld`): with
+`use_xref_streams` neither key was written, whatever the other settings. -/
+theorem C05_witness_xref_stream_trailer_old (o c : Bool) :
+    ¬ ("Encrypt" ∈ trailerKeysOld ⟨true, o, c⟩ true) ∧ ¬ ("ID" ∈ trailerKeysOld ⟨true, o, c⟩ true) ∧
+      detectEncryption (trailerKeysOld ⟨true, o, c⟩ true) = false := by
+  simp [trailerKeysOld, detectEncryption]
 
 /-! ## What the reader returns
 
@@ -386,18 +385,23 @@ FULL ("never silently ciphertext", "reads back exactly"):
   ∀ cfg o, readObj cfg enc dec o = o
 -/
 
-/-- classic trailer: every object tree without strings under skipped keys reads back exactly -/
-theorem C05_reads_back_partial (cfg : Cfg) (h : cfg.xref = false) (enc dec : Bytes → Bytes)
+/-- every configuration: every object tree without strings under skipped keys reads back exactly
+(the remaining hypothesis `okObj` is finding F2) -/
+theorem C05_reads_back_partial (cfg : Cfg) (enc dec : Bytes → Bytes)
     (hc : ∀ b, dec (enc b) = b) (o : Obj) (ho : okObj o = true) : readObj cfg enc dec o = o := by
-  simp only [readObj, (C05_trailer_announces_encryption_partial cfg h).2.2, if_true]
+  simp only [readObj, (C05_trailer_announces_encryption cfg).2.2, if_true]
   exact obj_roundtrip enc dec hc o ho
 
-/-- F1 consequence: with an xref stream the reader hands out the ciphertext of every string as
-if it were the content — without any password and without an error. -/
-theorem C05_witness_ciphertext_returned (o c : Bool) (enc dec : Bytes → Bytes) (x : Obj) :
-    readObj ⟨true, o, c⟩ enc dec x = encryptObj enc x := by
-  simp [readObj, (C05_witness_xref_stream_trailer o c).2.2]
+/-- "never silently ciphertext": in every configuration the reader decrypts what the writer
+encrypted (it never hands out `encryptObj enc x` as if it were content). -/
+theorem C05_never_ciphertext (cfg : Cfg) (enc dec : Bytes → Bytes) (x : Obj) :
+    readObj cfg enc dec x = decryptObj dec (encryptObj enc x) := by
+  simp [readObj, (C05_trailer_announces_encryption cfg).2.2]
+
+/-- Regression statement: with the unrepaired xref-stream trailer the reader handed out the
+ciphertext of every string as if it were the content — without any password, without an error. -/
+theorem C05_witness_ciphertext_returned_old (o c : Bool) (enc dec : Bytes → Bytes) (x : Obj) :
+    readObjOld ⟨true, o, c⟩ enc dec x = encryptObj enc x := by
+  simp [readObjOld, (C05_witness_xref_stream_trailer_old o c).2.2]
 
 end OxiVerif.C05
-
-
